@@ -179,6 +179,16 @@ From Crux Require Rt.Rt Rt.Perm.
 Theorem C13_rt_dropping_a_command_releases_it : forall f cid H,
   cid < length (Rt.cmds H) -> Rt.c_alive (Rt.gcmd cid (Rt.drop_cmd (S f) cid H)) = false.
 Proof. exact Perm.drop_cmd_dead. Qed.
+(* One task: what the executor does to a task that completed, was aborted or was evicted (tasks.remove(id);
+   finished.store(true); wake_join_handles(); drop(task)) releases it - its slab slot is vacant, its flag says finished
+   and gone - for every heap; the wakes of the join waiters and the drop of its future never put anything back into any
+   command's task table (Rt/TaskRelease.v: they leave every table alone or empty it). *)
+From Crux Require Rt.TaskRelease.
+Theorem C13_rt_finished_task_is_released : forall cid s t H,
+  Rt.slab_get s (Rt.gcmd cid (Rt.finish_task cid s t H)) = None /\
+  Rt.tf_alive (Rt.gtf (Rt.t_uid t) (Rt.finish_task cid s t H)) = false /\
+  Rt.tf_fin (Rt.gtf (Rt.t_uid t) (Rt.finish_task cid s t H)) = true.
+Proof. exact TaskRelease.finish_task_releases. Qed.
 Theorem C13_rt_released_stays_released : forall fuel cid H H',
   Rt.settle fuel cid H = Some H' ->
   (forall c, c < length (Rt.cmds H) -> Rt.c_alive (Rt.gcmd c H) = false -> Rt.c_alive (Rt.gcmd c H') = false) /\
